@@ -54,7 +54,9 @@ class Lib(FsMixin):
                           'reduce': E('functools.reduce', self.unsupported('functools.reduce'))}
         m['contextlib'] = {'contextmanager': E('contextlib.contextmanager', lambda it, a, k: self.mark_cm(a[0])),
                            'suppress': E('contextlib.suppress', self.cl_suppress),
-                           'ExitStack': E('contextlib.ExitStack', self.unsupported('contextlib.ExitStack'))}
+                           'ExitStack': E('contextlib.ExitStack', self.exit_stack)}
+        self.env.obj_methods['ExitStack'] = {'__enter__': lambda it, o, a, k: o, '__exit__': self.exit_stack_exit,
+                                             'enter_context': self.exit_stack_enter}
         m['errno'] = {'EEXIST': 17, 'ENOENT': 2}
         m['os'] = {'path': EnvModule('os.path')}
         m['os.path'] = {}
@@ -335,6 +337,26 @@ class Lib(FsMixin):
             log.append(w)
         it.st.effect('WARN', message=a[0], category=cat, batch=it.st.ghost.get('batch'))
         return None
+
+    def exit_stack(self, it, a, k):
+        self.env.use('contextlib.ExitStack: enter_context enters at once; on exit every entered manager is exited in reverse order, on normal and exceptional exits')
+        return Obj('ExitStack', {'entered': []})
+
+    def exit_stack_enter(self, it, o, a, k):
+        cm = a[0]
+        from .mock import RecCM
+        if not isinstance(cm, RecCM):
+            raise Unsupported('ExitStack.enter_context(%r)' % (cm,))
+        it.st.effect('CM_ENTER', target=cm.rec, name=cm.name, bound=cm.bound, via='ExitStack')
+        g = it.st.world.get('ghost_entered')
+        if g is not None and cm.rec.index is not None:
+            it.st.world['ghost_entered'] = z3.Store(g, cm.rec.index, z3.Select(g, cm.rec.index) + 1)
+        o.fields['entered'].append(cm)
+        return None
+
+    def exit_stack_exit(self, it, o, a, k):
+        it.st.effect('EXITSTACK_UNWIND', exc=a[0] if a else None, entered=list(o.fields['entered']))
+        return False
 
     def ft_partial(self, it, a, k):
         f, pre = a[0], a[1:]
